@@ -1,6 +1,6 @@
 \* exhaustive (thorough, deep): 4 temperatures, 2 table values, 6 kind pairs, every behaviour of up to 5 calls
 CONSTANTS NT = 4  NV = 2  MaxLevel = 5
-  KindChoices <- McKindsQuick  TempChoices <- McTempsOne  LinkPairs <- McLinks
+  KindChoices <- McKindsQuick  TempChoices <- McTempsOne  LinkPairs <- McLinks  RampSteps <- McRamp
 INIT Init
 NEXT NextB
 CONSTRAINT Bound
@@ -16,6 +16,9 @@ INVARIANT ReadBack
 INVARIANT LinkEquality
 INVARIANT FluidsAndCustomKeepDimensions
 INVARIANT InertRefusesOffInput
+INVARIANT Composes
+INVARIANT CopyIsFaithful
 PROPERTY RefusalsChangeNothing
 PROPERTY ConstructionFixed
+PROPERTY CopyLeavesOthers
 CHECK_DEADLOCK FALSE
